@@ -43,11 +43,12 @@ Cmds == {[k |-> "rpcmd", s |-> "l 2 0 C 1 1 2 1 3 5", endx |-> 3, endy |-> 5],
          [k |-> "rpcmd", s |-> "h 3 v 2 S 5 5 7 3", endx |-> 7, endy |-> 3],
          [k |-> "rpcmd", s |-> "l 4 0 A 2 -90 0", endx |-> 6, endy |-> 2]}
 \* outline clearance: constant widths, flush / round ends, 1-2 sections
-Regions == {[k |-> "rpregion", secs |-> ss, w |-> w, o |-> o, ends |-> e, tolk |-> t] :
+\* (rot = 1: the finished path is rotated by atan(3/4) before its outline is taken)
+Regions == {[k |-> "rpregion", secs |-> ss, w |-> w, o |-> o, ends |-> e, tolk |-> t, rot |-> ro] :
               ss \in {<<Seg(<<8, 0>>, FALSE)>>, <<Seg(<<6, 0>>, FALSE), [k |-> "arc", rx |-> 4, ry |-> 4, a0 |-> -90, a1 |-> 0, rot |-> 0]>>,
                       <<[k |-> "cubic", c1 |-> <<3, 0>>, c2 |-> <<6, 2>>, e |-> <<8, 5>>, rel |-> TRUE]>>,
                       <<Seg(<<5, 0>>, FALSE), [k |-> "cubic_smooth", c2 |-> <<4, 3>>, e |-> <<6, 5>>, rel |-> TRUE]>>},
-              w \in {1000, 500}, o \in {0, 750, -750}, e \in {"flush", "round"}, t \in {2, 3}}
+              w \in {1000, 500}, o \in {0, 750, -750}, e \in {"flush", "round"}, t \in {2, 3}, ro \in {0, 1}}
 Init == case \in Books \cup After \cup Cmds \cup Regions
 Next == UNCHANGED case
 AppendOpts == [format |-> "TXT", charset |-> "UTF-8",
